@@ -32,6 +32,9 @@ CFG = {
         "Swat4.C10.consistentB_iff",
         "Swat4.C10.driver_runCall_consistent",
         "Swat4.C10.driver_expire_consistent",
+        "Swat4.C10.facts_batches_atomic",
+        "Swat4.C10.facts_no_bare_pipeline_in_writer",
+        "Swat4.C10.facts_lock_ttl",
     ],
     "shards": (4, 16),
     "nontrivial": _c10_nontrivial,
@@ -53,6 +56,14 @@ CFG = {
     ],
     "trusted_base": COMMON_TRUSTED + [
         "harness/internal/world (miniredis + fake clock wiring), harness/internal/storeops (call specs, scheduler hook) and the dump parser Drv/StoreRun.lean:parseDump",
+        "harness/internal/facts/storewrites.go (go/ast extractor behind facts_batches_atomic / facts_lock_ttl, trusted to report call sites faithfully): "
+        "a Redis call = X.M(args) with >= 1 argument and M in the method set of go-redis' Pipeliner / *Tx / *Client (reflection); M in a fixed read-only "
+        "list = read, Watch / Pipelined / TxPipelined / Pipeline / TxPipeline = plumbing (all listed), every other M = WRITE; a write counts as inside a "
+        "MULTI..EXEC only if its receiver is an identifier resolving to a parameter of the innermost enclosing function literal and that literal is an "
+        "argument of R.TxPipelined(...); parameters print with their type ('tx *redis.Tx'), everything else as source text. Any unrecognised shape (alias, "
+        "nested closure, helper function, write on tx / r.client directly, bare Pipelined) is reported as a write outside a transaction, i.e. fails safe. "
+        "For the lock: every SetNX call with its argument texts, Guard's parameter list, every call named *Expire* / Persist / Set* / GetEx / GetSet in "
+        "redislock.go, every Guard call of servers.go. Not covered: writes from other files, Lua scripts, build-tag variants",
     ],
     "manifest": {
         "text": "Lean theorems over the Redis-level model of the three repositories (Model/Store.lean, StoreMachine.lean, QueueMachine.lean): "
@@ -63,9 +74,14 @@ CFG = {
                 "qstep_consistent - every storage command of a registry write or queue/instance call does, for an arbitrary machine state, "
                 "and wstep_atomic - its store effect is nothing or exactly one atomic step; C10_main / C10_world - invariant along every "
                 "event list (any number of clients, any interleaving, expiry events, queue commands); C10_crash - hence after every prefix, "
-                "i.e. after a client death at any command boundary; lock_ttl - every lock cell in every reachable state carries an expiry; "
+                "i.e. after a client death at any command boundary (a corollary of C10_main: the prefix hypothesis is not needed); lock_ttl - every "
+                "lock cell in every reachable state carries an expiry (true by construction of lockSetNX; tied to the code by facts_lock_ttl); "
+                "facts_batches_atomic - the regenerated go/ast inventory of every Redis write call site of the three repositories and redislock: each "
+                "batch of the model is the set of pipe.X calls of exactly one TxPipelined closure, the only writes outside such a closure are Guard's "
+                "SetNX and release's Del (atomic steps of their own in the model), no writer uses a bare Pipelined; facts_lock_ttl - one SetNX whose TTL "
+                "argument is Guard's ttl parameter = the positive lease option, no Expire/PExpire/Persist/Set call in redislock.go; "
                 "consistentB_sound / consistentB_iff - the driver's executable oracle is the invariant (plus: no status-set member with a bit index outside 0..8); driver_runCall_consistent - every model state the driver itself produces (calls cut anywhere) is consistent. That the real code issues exactly "
-                "these atomic steps is established by the differential run only: results, per-command traces and the raw keyspace after "
+                "these atomic steps is established by the source facts above (syntactic: which writes sit in which MULTI..EXEC) and by the differential run: results, per-command traces and the raw keyspace after "
                 "every item (with crashes injected at command boundaries) are compared with the model, and the oracle is evaluated on the "
                 "implementation's own dumps.",
         "level_note": "Proved: invariant preservation for the model, for all states, arguments and schedules. Compared only (finite): "
